@@ -32,6 +32,9 @@ def shapes(tier, seed):
         # focused sub-spaces (fewer switches => deeper coverage of the later rules)
         out.append(('flags', carrier, 'late', True))
         out.append(('flags', carrier, 'auth', True))
+        # a presented signature of another length (always wrong) combined with every later defect, provider failures included
+        for sv in ('sig-long', 'sig-short', 'sig-empty'):
+            out.append(('flags', carrier, 'late', True, sv))
     out.append(('flags', 'none', 'all', True))
     out.append(('flags', 'both', 'all', True))
     out.append(('flags', 'header', 'all', False))     # Authorization header without any date header
@@ -50,7 +53,8 @@ def subset(carrier, which):
 
 
 def run_shape(prog, shape, tier, seed, res):
-    _, carrier, which, date_header = shape
+    _, carrier, which, date_header = shape[:4]
+    sig_variant = shape[4] if len(shape) > 4 else None
 
     def body(m, ctx):
         flags = {}
@@ -58,7 +62,7 @@ def run_shape(prog, shape, tier, seed, res):
             flags[n] = ctx.fresh_bool('f_' + n)
         if 'expired' in flags and 'future' in flags:
             ctx.assume(z3.Not(z3.And(flags['expired'], flags['future'])))
-        D = Defective(m, ctx, carrier, flags, date_header)
+        D = Defective(m, ctx, carrier, flags, date_header, sig_variant=sig_variant)
         prov = A.Provider(D.result)
         r, polls = run(m, D.req, 'us-east-1', 'service', prov, D.server, D.reqs)
         return D, flags, r, prov
@@ -108,6 +112,8 @@ def run_shape(prog, shape, tier, seed, res):
         if not okv:
             sat, model = ctx.satisfiable(z3.Not(prop))
             on = sorted(n for n, fl in flags.items() if z3.is_true(model.eval(fl, model_completion=True)))
+            if sig_variant and 'signature' not in on:
+                on.append('signature')
             res.findings.append(Finding('error %s %r is not that of the earliest defect' % (kind, msg[:40].decode('latin-1')),
                                         {'carrier': carrier, 'date_header': date_header, 'defects': on, 'request': D.req.to_json(model),
                                          'mirse': [kind, msg.decode('latin-1')]}, None, None, repr(shape)))
